@@ -133,7 +133,8 @@ claim("C30",
       "every fallible Heap operation returns AllocError and leaves length, capacity, pointer, "
       "resource_err_loc and every byte unchanged; InnerHeap::grow itself honours that contract when "
       "the allocator returns null. M: copier::copy_term restores the source term on every "
-      "returning path, error returns included.",
+      "returning path, error returns included; every instruction helper of dispatch.rs that raises the "
+      "resource error hands control to the handler (backtrack() or a caller that tests fail).",
       "store_resource_error/functor_writer, propagation macros, catchability and later goals in "
       "general are outside; allocation failure inside dashu/Vec aborts.",
       K + " + " + M, "DESIGN.md §4 C30", engine="kani+mirsmt")
